@@ -25,6 +25,11 @@ def mutable_state(f):
 
 
 def check(fx, R, rule, f, inst, loc, reader_kw=None):
+    root_ = R
+    while hasattr(root_, 'R'):
+        root_ = root_.R              # delegating properties wrap the results object
+    if hasattr(root_, 'extra'):
+        root_.extra.setdefault('epure_functions', []).append(f['key'])
     statics, globs = mutable_state(f)
     if globs:
         R.undecided(rule, inst + ':hidden-state', 'reads the mutable namespace-scope variable(s) %s' % globs)
